@@ -1,4 +1,7 @@
 ---------------------------- MODULE MC_WideTable ----------------------------
 EXTENDS WideTable, Json
 Emit == PrintT(<<"T", ToJson([hist |-> hist'])>>)
+\* the same without the row sets (the replay of lib/widetable.py judges the probes; lib/crashrun.py needs the rows)
+Slim(h) == [j \in 1..Len(h) |-> [op |-> h[j].op, n |-> h[j].n, intxn |-> h[j].intxn, idx |-> h[j].idx, nbig |-> h[j].nbig, bigpts |-> h[j].bigpts, probes |-> h[j].probes]]
+EmitSlim == PrintT(<<"T", ToJson([hist |-> Slim(hist')])>>)
 =============================================================================
